@@ -85,8 +85,12 @@ func (c *ScriptConn) Close() error {
 	return nil
 }
 
-func (c *ScriptConn) Closed() bool   { c.mu.Lock(); defer c.mu.Unlock(); return c.closed }
-func (c *ScriptConn) Written() []byte { c.mu.Lock(); defer c.mu.Unlock(); return append([]byte(nil), c.wr.Bytes()...) }
+func (c *ScriptConn) Closed() bool { c.mu.Lock(); defer c.mu.Unlock(); return c.closed }
+func (c *ScriptConn) Written() []byte {
+	c.mu.Lock()
+	defer c.mu.Unlock()
+	return append([]byte(nil), c.wr.Bytes()...)
+}
 
 // Unread reports how many scripted bytes were never read by the server.
 func (c *ScriptConn) Unread() int {
